@@ -17,62 +17,62 @@ Proof. now apply md_str_eqb_eq. Qed.
 
 (* a nested induction principle for selections *)
 Section SelInd.
-  Variable P : sel -> Prop.
-  Variable Q : list sel -> Prop.
-  Hypothesis Hfield : forall n sub, Q sub -> P (SField n sub).
-  Hypothesis Hinline : forall sub, Q sub -> P (SInline sub).
-  Hypothesis Hspread : forall n, P (SSpread n).
+  Variable P : md_sel -> Prop.
+  Variable Q : list md_sel -> Prop.
+  Hypothesis Hfield : forall n sub, Q sub -> P (MdField n sub).
+  Hypothesis Hinline : forall sub, Q sub -> P (MdInline sub).
+  Hypothesis Hspread : forall n, P (MdSpread n).
   Hypothesis Hnil : Q [].
   Hypothesis Hcons : forall s r, P s -> Q r -> Q (s :: r).
 
-  Fixpoint sel_ind2 (s : sel) : P s :=
+  Fixpoint sel_ind2 (s : md_sel) : P s :=
     match s with
-    | SField n sub =>
-        Hfield n sub ((fix go (l : list sel) : Q l :=
+    | MdField n sub =>
+        Hfield n sub ((fix go (l : list md_sel) : Q l :=
                          match l with [] => Hnil | x :: r => Hcons x r (sel_ind2 x) (go r) end) sub)
-    | SInline sub =>
-        Hinline sub ((fix go (l : list sel) : Q l :=
+    | MdInline sub =>
+        Hinline sub ((fix go (l : list md_sel) : Q l :=
                         match l with [] => Hnil | x :: r => Hcons x r (sel_ind2 x) (go r) end) sub)
-    | SSpread n => Hspread n
+    | MdSpread n => Hspread n
     end.
 
-  Fixpoint sels_ind2 (l : list sel) : Q l :=
+  Fixpoint sels_ind2 (l : list md_sel) : Q l :=
     match l with [] => Hnil | x :: r => Hcons x r (sel_ind2 x) (sels_ind2 r) end.
 End SelInd.
 
-(* ---------------------------------------------------------------- xdepth: fuel monotonicity *)
+(* ---------------------------------------------------------------- md_xdepth: fuel monotonicity *)
 
-Definition rec_le {A} (r1 r2 : list sel -> option A) : Prop :=
+Definition rec_le {A} (r1 r2 : list md_sel -> option A) : Prop :=
   forall l x, r1 l = Some x -> r2 l = Some x.
 
 Lemma xd_one_mono frs r1 r2 s x :
-  rec_le r1 r2 -> xd_one r1 frs s = Some x -> xd_one r2 frs s = Some x.
+  rec_le r1 r2 -> md_xd_one r1 frs s = Some x -> md_xd_one r2 frs s = Some x.
 Proof.
-  intros H. destruct s as [n sub|sub|n]; cbn [xd_one].
+  intros H. destruct s as [n sub|sub|n]; cbn [md_xd_one].
   - destruct (r1 sub) as [y|] eqn:E; [|discriminate]. now rewrite (H _ _ E).
   - apply H.
   - destruct (md_assoc n frs); [apply H|auto].
 Qed.
 
 Lemma xd_list_mono frs r1 r2 l : forall x,
-  rec_le r1 r2 -> xd_list r1 frs l = Some x -> xd_list r2 frs l = Some x.
+  rec_le r1 r2 -> md_xd_list r1 frs l = Some x -> md_xd_list r2 frs l = Some x.
 Proof.
-  induction l as [|s l IH]; intros x H; cbn [xd_list]; [auto|].
-  destruct (xd_one r1 frs s) as [a|] eqn:Ea; [|discriminate].
-  destruct (xd_list r1 frs l) as [b|] eqn:Eb; [|discriminate].
-  cbn [omax]. intros [= <-].
+  induction l as [|s l IH]; intros x H; cbn [md_xd_list]; [auto|].
+  destruct (md_xd_one r1 frs s) as [a|] eqn:Ea; [|discriminate].
+  destruct (md_xd_list r1 frs l) as [b|] eqn:Eb; [|discriminate].
+  cbn [md_omax]. intros [= <-].
   now rewrite (xd_one_mono _ _ _ _ _ H Ea), (IH _ H eq_refl).
 Qed.
 
-Lemma xdepth_S frs f : rec_le (xdepth f frs) (xdepth (S f) frs).
+Lemma xdepth_S frs f : rec_le (md_xdepth f frs) (md_xdepth (S f) frs).
 Proof.
   induction f as [|f IH]; intros l x; [discriminate|].
-  intros H. change (xd_list (xdepth (S f) frs) frs l = Some x).
-  change (xd_list (xdepth f frs) frs l = Some x) in H.
+  intros H. change (md_xd_list (md_xdepth (S f) frs) frs l = Some x).
+  change (md_xd_list (md_xdepth f frs) frs l = Some x) in H.
   eapply xd_list_mono; eauto.
 Qed.
 
-Lemma xdepth_mono frs f f' : (f <= f')%nat -> rec_le (xdepth f frs) (xdepth f' frs).
+Lemma xdepth_mono frs f f' : (f <= f')%nat -> rec_le (md_xdepth f frs) (md_xdepth f' frs).
 Proof.
   induction 1 as [|f' _ IH]; intros l x H; [exact H|].
   apply xdepth_S. now apply IH.
@@ -92,78 +92,78 @@ Proof. intros [[|f] H]; [discriminate|]. cbn in H. congruence. Qed.
 
 Lemma XD_cons frs s r x :
   ExpandedDepth frs (s :: r) x ->
-  exists f a b, xd_one (xdepth f frs) frs s = Some a /\ ExpandedDepth frs r b /\ x = N.max a b.
+  exists f a b, md_xd_one (md_xdepth f frs) frs s = Some a /\ ExpandedDepth frs r b /\ x = N.max a b.
 Proof.
   intros [[|f] H]; [discriminate|].
-  change (omax (xd_one (xdepth f frs) frs s) (xd_list (xdepth f frs) frs r) = Some x) in H.
-  destruct (xd_one (xdepth f frs) frs s) as [a|] eqn:Ea; [|discriminate].
-  destruct (xd_list (xdepth f frs) frs r) as [b|] eqn:Eb; [|discriminate].
-  cbn [omax] in H. injection H as <-.
+  change (md_omax (md_xd_one (md_xdepth f frs) frs s) (md_xd_list (md_xdepth f frs) frs r) = Some x) in H.
+  destruct (md_xd_one (md_xdepth f frs) frs s) as [a|] eqn:Ea; [|discriminate].
+  destruct (md_xd_list (md_xdepth f frs) frs r) as [b|] eqn:Eb; [|discriminate].
+  cbn [md_omax] in H. injection H as <-.
   exists f, a, b. split; [exact Ea|]. split; [|reflexivity]. now exists (S f).
 Qed.
 
 Lemma XD_field frs n sub r x :
-  ExpandedDepth frs (SField n sub :: r) x ->
+  ExpandedDepth frs (MdField n sub :: r) x ->
   exists y b, ExpandedDepth frs sub y /\ ExpandedDepth frs r b /\
-              x = N.max (if is_list_field n then y + 1 else y) b.
+              x = N.max (if md_is_list_field n then y + 1 else y) b.
 Proof.
-  intros H. apply XD_cons in H as (f & a & b & Ha & Hb & ->). cbn [xd_one] in Ha.
-  destruct (xdepth f frs sub) as [y|] eqn:E; [|discriminate]. injection Ha as <-.
+  intros H. apply XD_cons in H as (f & a & b & Ha & Hb & ->). cbn [md_xd_one] in Ha.
+  destruct (md_xdepth f frs sub) as [y|] eqn:E; [|discriminate]. injection Ha as <-.
   exists y, b. split; [now exists f|auto].
 Qed.
 
 Lemma XD_inline frs sub r x :
-  ExpandedDepth frs (SInline sub :: r) x ->
+  ExpandedDepth frs (MdInline sub :: r) x ->
   exists y b, ExpandedDepth frs sub y /\ ExpandedDepth frs r b /\ x = N.max y b.
 Proof.
-  intros H. apply XD_cons in H as (f & a & b & Ha & Hb & ->). cbn [xd_one] in Ha.
+  intros H. apply XD_cons in H as (f & a & b & Ha & Hb & ->). cbn [md_xd_one] in Ha.
   exists a, b. split; [now exists f|auto].
 Qed.
 
 Lemma XD_spread frs n body r x :
   md_assoc n frs = Some body ->
-  ExpandedDepth frs (SSpread n :: r) x ->
+  ExpandedDepth frs (MdSpread n :: r) x ->
   exists y b, ExpandedDepth frs body y /\ ExpandedDepth frs r b /\ x = N.max y b.
 Proof.
-  intros Hn H. apply XD_cons in H as (f & a & b & Ha & Hb & ->). cbn [xd_one] in Ha.
+  intros Hn H. apply XD_cons in H as (f & a & b & Ha & Hb & ->). cbn [md_xd_one] in Ha.
   rewrite Hn in Ha. exists a, b. split; [now exists f|auto].
 Qed.
 
 Lemma XD_spread_undef frs n r x :
   md_assoc n frs = None ->
-  ExpandedDepth frs (SSpread n :: r) x -> ExpandedDepth frs r x.
+  ExpandedDepth frs (MdSpread n :: r) x -> ExpandedDepth frs r x.
 Proof.
-  intros Hn H. apply XD_cons in H as (f & a & b & Ha & Hb & ->). cbn [xd_one] in Ha.
+  intros Hn H. apply XD_cons in H as (f & a & b & Ha & Hb & ->). cbn [md_xd_one] in Ha.
   rewrite Hn in Ha. injection Ha as <-. now rewrite N.max_0_l.
 Qed.
 
 (* ---------------------------------------------------------------- the check against the specification *)
 
-Local Ltac mlia := unfold MAX_LISTS_DEPTH in *; lia.
+Local Ltac mlia := unfold md_MAX_LISTS_DEPTH in *; lia.
 
 Section Check.
-  Variable frs : fragmap.
+  Variable frs : md_fragmap.
 
   (* every memoised depth is the expanded depth of that fragment's body *)
-  Definition memo_ok (m : memo) : Prop :=
+  Definition memo_ok (m : md_memo) : Prop :=
     forall n fd body x, md_assoc n m = Some fd -> md_assoc n frs = Some body ->
                         ExpandedDepth frs body x -> fd = x.
 
-  Definition good (d : N) (sels : list sel) (r : mdres) : Prop :=
+  Definition good (d : N) (sels : list md_sel) (r : mdres) : Prop :=
     match r with
     | MdOutOfFuel => True
     | MdPanic => False
-    | MdErr => forall x, ExpandedDepth frs sels x -> MAX_LISTS_DEPTH <= d + x
-    | MdOk v m' => memo_ok m' /\ d <= v /\ v < MAX_LISTS_DEPTH /\
+    | MdErr => forall x, ExpandedDepth frs sels x -> md_MAX_LISTS_DEPTH <= d + x
+    | MdOk v m' => memo_ok m' /\ d <= v /\ v < md_MAX_LISTS_DEPTH /\
                    forall x, ExpandedDepth frs sels x -> v = d + x
     end.
 
-  Definition good_loop (d maxd : N) (l : list sel) (r : mdres) : Prop :=
+  Definition good_loop (d maxd : N) (l : list md_sel) (r : mdres) : Prop :=
     match r with
     | MdOutOfFuel => True
     | MdPanic => False
-    | MdErr => forall x, ExpandedDepth frs l x -> MAX_LISTS_DEPTH <= d + x
-    | MdOk v m' => memo_ok m' /\ maxd <= v /\ v < MAX_LISTS_DEPTH /\
+    | MdErr => forall x, ExpandedDepth frs l x -> md_MAX_LISTS_DEPTH <= d + x
+    | MdOk v m' => memo_ok m' /\ maxd <= v /\ v < md_MAX_LISTS_DEPTH /\
                    forall x, ExpandedDepth frs l x -> v = N.max maxd (d + x)
     end.
 
@@ -180,13 +180,13 @@ Section Check.
   Qed.
 
   Section LoopSpec.
-    Variable rec : memo -> N -> list sel -> mdres.
-    Hypothesis Hrec : forall m d sub, memo_ok m -> d < MAX_LISTS_DEPTH -> good d sub (rec m d sub).
+    Variable rec : md_memo -> N -> list md_sel -> mdres.
+    Hypothesis Hrec : forall m d sub, memo_ok m -> d < md_MAX_LISTS_DEPTH -> good d sub (rec m d sub).
     Variable d : N.
-    Hypothesis Hd : d < MAX_LISTS_DEPTH.
+    Hypothesis Hd : d < md_MAX_LISTS_DEPTH.
 
     Lemma md_loop_good l : forall m maxd,
-      memo_ok m -> d <= maxd -> maxd < MAX_LISTS_DEPTH ->
+      memo_ok m -> d <= maxd -> maxd < md_MAX_LISTS_DEPTH ->
       good_loop d maxd l (md_loop rec frs d m maxd l).
     Proof.
       induction l as [|s l IH]; intros m maxd Hm Hlo Hhi.
@@ -194,16 +194,16 @@ Section Check.
         intros x Hx. apply XD_nil in Hx. mlia.
       - destruct s as [n sub|sub|n]; cbn [md_loop].
         + (* field *)
-          destruct (is_list_field n) eqn:El; cbn [andb].
-          * destruct (MAX_LISTS_DEPTH <=? d + 1) eqn:E3.
+          destruct (md_is_list_field n) eqn:El; cbn [andb].
+          * destruct (md_MAX_LISTS_DEPTH <=? d + 1) eqn:E3.
             -- cbn [good_loop]. intros x Hx. apply XD_field in Hx as (y & b & _ & _ & ->).
                rewrite El. mlia.
-            -- assert (Hd1 : d + 1 < MAX_LISTS_DEPTH) by mlia.
+            -- assert (Hd1 : d + 1 < md_MAX_LISTS_DEPTH) by mlia.
                pose proof (Hrec m (d + 1) sub Hm Hd1) as Hg.
                destruct (rec m (d + 1) sub) as [v m'| | |]; cbn [good] in Hg; cbn [good_loop]; auto.
                ++ destruct Hg as (Hm' & Hv1 & Hv2 & Hv).
                   assert (Hlo' : d <= N.max maxd v) by mlia.
-                  assert (Hhi' : N.max maxd v < MAX_LISTS_DEPTH) by mlia.
+                  assert (Hhi' : N.max maxd v < md_MAX_LISTS_DEPTH) by mlia.
                   pose proof (IH m' (N.max maxd v) Hm' Hlo' Hhi') as Hl.
                   destruct (md_loop rec frs d m' (N.max maxd v) l) as [v2 m2| | |];
                     cbn [good_loop] in Hl |- *; auto.
@@ -218,7 +218,7 @@ Section Check.
             destruct (rec m d sub) as [v m'| | |]; cbn [good] in Hg; cbn [good_loop]; auto.
             ++ destruct Hg as (Hm' & Hv1 & Hv2 & Hv).
                assert (Hlo' : d <= N.max maxd v) by mlia.
-               assert (Hhi' : N.max maxd v < MAX_LISTS_DEPTH) by mlia.
+               assert (Hhi' : N.max maxd v < md_MAX_LISTS_DEPTH) by mlia.
                pose proof (IH m' (N.max maxd v) Hm' Hlo' Hhi') as Hl.
                destruct (md_loop rec frs d m' (N.max maxd v) l) as [v2 m2| | |];
                  cbn [good_loop] in Hl |- *; auto.
@@ -234,7 +234,7 @@ Section Check.
           destruct (rec m d sub) as [v m'| | |]; cbn [good] in Hg; cbn [good_loop]; auto.
           ++ destruct Hg as (Hm' & Hv1 & Hv2 & Hv).
              assert (Hlo' : d <= N.max maxd v) by mlia.
-             assert (Hhi' : N.max maxd v < MAX_LISTS_DEPTH) by mlia.
+             assert (Hhi' : N.max maxd v < md_MAX_LISTS_DEPTH) by mlia.
              pose proof (IH m' (N.max maxd v) Hm' Hlo' Hhi') as Hl.
              destruct (md_loop rec frs d m' (N.max maxd v) l) as [v2 m2| | |];
                cbn [good_loop] in Hl |- *; auto.
@@ -248,13 +248,13 @@ Section Check.
         + (* named spread *)
           destruct (md_assoc n frs) as [body|] eqn:En.
           * destruct (md_assoc n m) as [fd|] eqn:Em.
-            -- (* memo hit *)
-               cbv zeta. destruct (MAX_LISTS_DEPTH <=? d + fd) eqn:E3.
+            -- (* md_memo hit *)
+               cbv zeta. destruct (md_MAX_LISTS_DEPTH <=? d + fd) eqn:E3.
                ++ cbn [good_loop]. intros x Hx.
                   apply (XD_spread _ _ _ _ _ En) in Hx as (y & b & Hy & Hb & ->).
                   rewrite (Hm _ _ _ _ Em En Hy) in E3. mlia.
                ++ assert (Hlo' : d <= N.max maxd (d + fd)) by mlia.
-                  assert (Hhi' : N.max maxd (d + fd) < MAX_LISTS_DEPTH) by mlia.
+                  assert (Hhi' : N.max maxd (d + fd) < md_MAX_LISTS_DEPTH) by mlia.
                   pose proof (IH m (N.max maxd (d + fd)) Hm Hlo' Hhi') as Hl.
                   destruct (md_loop rec frs d m (N.max maxd (d + fd)) l) as [v2 m2| | |];
                     cbn [good_loop] in Hl |- *; auto.
@@ -270,7 +270,7 @@ Section Check.
                   replace (v <? d) with false by mlia.
                   assert (Hmi : memo_ok ((n, v - d) :: m')) by (eapply memo_ok_insert; eauto).
                   assert (Hlo' : d <= N.max maxd v) by mlia.
-                  assert (Hhi' : N.max maxd v < MAX_LISTS_DEPTH) by mlia.
+                  assert (Hhi' : N.max maxd v < md_MAX_LISTS_DEPTH) by mlia.
                   pose proof (IH _ (N.max maxd v) Hmi Hlo' Hhi') as Hl.
                   destruct (md_loop rec frs d ((n, v - d) :: m') (N.max maxd v) l) as [v2 m2| | |];
                     cbn [good_loop] in Hl |- *; auto.
@@ -291,66 +291,66 @@ Section Check.
   End LoopSpec.
 
   Theorem check_good fuel : forall m d sels,
-    memo_ok m -> d < MAX_LISTS_DEPTH -> good d sels (check_selection_set fuel frs m d sels).
+    memo_ok m -> d < md_MAX_LISTS_DEPTH -> good d sels (md_check_selection_set fuel frs m d sels).
   Proof.
-    induction fuel as [|fuel IH]; intros m d sels Hm Hd; cbn [check_selection_set]; [exact I|].
-    pose proof (md_loop_good (check_selection_set fuel frs) IH d Hd sels m d Hm (N.le_refl d) Hd) as H.
-    destruct (md_loop (check_selection_set fuel frs) frs d m d sels) as [v m'| | |];
+    induction fuel as [|fuel IH]; intros m d sels Hm Hd; cbn [md_check_selection_set]; [exact I|].
+    pose proof (md_loop_good (md_check_selection_set fuel frs) IH d Hd sels m d Hm (N.le_refl d) Hd) as H.
+    destruct (md_loop (md_check_selection_set fuel frs) frs d m d sels) as [v m'| | |];
       cbn [good_loop good] in *; auto.
     destruct H as (H1 & H2 & H3 & H4). repeat split; auto.
     intros x Hx. rewrite (H4 _ Hx). mlia.
   Qed.
 
   (* the fuel that computes the expanded depth is enough for the check *)
-  Lemma md_loop_fuel (rec : memo -> N -> list sel -> mdres) (xrec : list sel -> option N) d :
+  Lemma md_loop_fuel (rec : md_memo -> N -> list md_sel -> mdres) (xrec : list md_sel -> option N) d :
     (forall m d' sub, xrec sub <> None -> rec m d' sub <> MdOutOfFuel) ->
-    forall l m maxd, xd_list xrec frs l <> None -> md_loop rec frs d m maxd l <> MdOutOfFuel.
+    forall l m maxd, md_xd_list xrec frs l <> None -> md_loop rec frs d m maxd l <> MdOutOfFuel.
   Proof.
     intros Hrec. induction l as [|s l IH]; intros m maxd Hx; cbn [md_loop]; [discriminate|].
-    cbn [xd_list] in Hx.
-    assert (Hs : xd_one xrec frs s <> None) by (destruct (xd_one xrec frs s); [discriminate|now cbn in Hx]).
-    assert (Hl : xd_list xrec frs l <> None).
-    { destruct (xd_one xrec frs s); [|now cbn in Hx]. destruct (xd_list xrec frs l); [discriminate|now cbn in Hx]. }
-    destruct s as [n sub|sub|n]; cbn [xd_one] in Hs.
-    - destruct (is_list_field n && (MAX_LISTS_DEPTH <=? (if is_list_field n then d + 1 else d))); [discriminate|].
+    cbn [md_xd_list] in Hx.
+    assert (Hs : md_xd_one xrec frs s <> None) by (destruct (md_xd_one xrec frs s); [discriminate|now cbn in Hx]).
+    assert (Hl : md_xd_list xrec frs l <> None).
+    { destruct (md_xd_one xrec frs s); [|now cbn in Hx]. destruct (md_xd_list xrec frs l); [discriminate|now cbn in Hx]. }
+    destruct s as [n sub|sub|n]; cbn [md_xd_one] in Hs.
+    - destruct (md_is_list_field n && (md_MAX_LISTS_DEPTH <=? (if md_is_list_field n then d + 1 else d))); [discriminate|].
       assert (Hsub : xrec sub <> None) by (destruct (xrec sub); [discriminate|exact Hs]).
-      pose proof (Hrec m (if is_list_field n then d + 1 else d) sub Hsub) as Hr.
-      destruct (rec m (if is_list_field n then d + 1 else d) sub); try discriminate; [now apply IH|contradiction].
+      pose proof (Hrec m (if md_is_list_field n then d + 1 else d) sub Hsub) as Hr.
+      destruct (rec m (if md_is_list_field n then d + 1 else d) sub); try discriminate; [now apply IH|contradiction].
     - pose proof (Hrec m d sub Hs) as Hr.
       destruct (rec m d sub); try discriminate; [now apply IH|contradiction].
     - destruct (md_assoc n frs) as [body|]; [|now apply IH].
       destruct (md_assoc n m) as [fd|].
-      + cbv zeta. destruct (MAX_LISTS_DEPTH <=? d + fd); [discriminate|now apply IH].
+      + cbv zeta. destruct (md_MAX_LISTS_DEPTH <=? d + fd); [discriminate|now apply IH].
       + pose proof (Hrec m d body Hs) as Hr.
         destruct (rec m d body) as [v m'| | |]; try discriminate; [|contradiction].
         destruct (v <? d); [discriminate|now apply IH].
   Qed.
 
   Theorem check_fuel fuel : forall m d sels,
-    xdepth fuel frs sels <> None -> check_selection_set fuel frs m d sels <> MdOutOfFuel.
+    md_xdepth fuel frs sels <> None -> md_check_selection_set fuel frs m d sels <> MdOutOfFuel.
   Proof.
     induction fuel as [|fuel IH]; intros m d sels Hx; [now cbn in Hx|].
-    cbn [check_selection_set]. apply (md_loop_fuel _ (xdepth fuel frs)); [|exact Hx].
+    cbn [md_check_selection_set]. apply (md_loop_fuel _ (md_xdepth fuel frs)); [|exact Hx].
     intros m' d' sub. apply IH.
   Qed.
 
   Lemma memo_ok_nil : memo_ok [].
   Proof. intros n fd body x H. discriminate. Qed.
 
-  (* the verdict, whatever fuel produced it, is determined by the expanded depth *)
+  (* the md_verdict, whatever fuel produced it, is determined by the expanded depth *)
   Theorem check_max_depth_spec op x fuel :
     ExpandedDepth frs op x ->
-    match check_max_depth fuel frs op with
-    | VOk => x < MAX_LISTS_DEPTH
-    | VErr => MAX_LISTS_DEPTH <= x
-    | VPanic => False
-    | VOutOfFuel => True
+    match md_check_max_depth fuel frs op with
+    | MdVOk => x < md_MAX_LISTS_DEPTH
+    | MdVErr => md_MAX_LISTS_DEPTH <= x
+    | MdVPanic => False
+    | MdVOutOfFuel => True
     end.
   Proof.
-    intros Hx. unfold check_max_depth.
-    assert (H0 : 0 < MAX_LISTS_DEPTH) by (unfold MAX_LISTS_DEPTH; mlia).
+    intros Hx. unfold md_check_max_depth.
+    assert (H0 : 0 < md_MAX_LISTS_DEPTH) by (unfold md_MAX_LISTS_DEPTH; mlia).
     pose proof (check_good fuel [] 0 op memo_ok_nil H0) as H.
-    destruct (check_selection_set fuel frs [] 0 op) as [v m'| | |]; cbn [good] in H; auto.
+    destruct (md_check_selection_set fuel frs [] 0 op) as [v m'| | |]; cbn [good] in H; auto.
     - destruct H as (_ & _ & Hv & Hs). rewrite (Hs _ Hx) in Hv. mlia.
     - specialize (H _ Hx). mlia.
   Qed.
@@ -358,11 +358,11 @@ Section Check.
   Theorem check_max_depth_total op x :
     ExpandedDepth frs op x -> exists v, Checks frs op v.
   Proof.
-    intros [f Hf]. exists (check_max_depth f frs op). exists f. split; [reflexivity|].
-    unfold check_max_depth.
-    assert (Hn : xdepth f frs op <> None) by congruence.
+    intros [f Hf]. exists (md_check_max_depth f frs op). exists f. split; [reflexivity|].
+    unfold md_check_max_depth.
+    assert (Hn : md_xdepth f frs op <> None) by congruence.
     pose proof (check_fuel f [] 0 op Hn) as H.
-    destruct (check_selection_set f frs [] 0 op); congruence.
+    destruct (md_check_selection_set f frs [] 0 op); congruence.
   Qed.
 End Check.
 
@@ -370,43 +370,43 @@ Theorem check_iff frs op x :
   ExpandedDepth frs op x ->
   (exists v, Checks frs op v) /\
   (forall v, Checks frs op v ->
-     (v = VErr <-> MAX_LISTS_DEPTH <= x) /\ (v = VOk <-> x < MAX_LISTS_DEPTH)).
+     (v = MdVErr <-> md_MAX_LISTS_DEPTH <= x) /\ (v = MdVOk <-> x < md_MAX_LISTS_DEPTH)).
 Proof.
   intros Hx. split; [eapply check_max_depth_total; eauto|].
   intros v [f [<- Hv]]. pose proof (check_max_depth_spec frs op x f Hx) as H.
-  destruct (check_max_depth f frs op); try contradiction; unfold MAX_LISTS_DEPTH in *;
+  destruct (md_check_max_depth f frs op); try contradiction; unfold md_MAX_LISTS_DEPTH in *;
     (split; split; intros; try discriminate; try reflexivity; try mlia).
 Qed.
 
 (* ---------------------------------------------------------------- acyclic fragment maps have an expanded depth *)
 
-Definition spreads_below (frs : fragmap) (rank : str -> nat) (k : nat) (l : list sel) : Prop :=
+Definition spreads_below (frs : md_fragmap) (rank : str -> nat) (k : nat) (l : list md_sel) : Prop :=
   forall m body, SpreadIn m l -> md_assoc m frs = Some body -> (rank m < k)%nat.
 
 Lemma xd_one_fuel_mono frs f f' s a :
-  (f <= f')%nat -> xd_one (xdepth f frs) frs s = Some a -> xd_one (xdepth f' frs) frs s = Some a.
+  (f <= f')%nat -> md_xd_one (md_xdepth f frs) frs s = Some a -> md_xd_one (md_xdepth f' frs) frs s = Some a.
 Proof. intros H. apply xd_one_mono. now apply xdepth_mono. Qed.
 
 Theorem xdepth_total frs : acyclic frs -> forall sels, exists x, ExpandedDepth frs sels x.
 Proof.
   intros [rank Hrank].
-  assert (H : forall k sels, spreads_below frs rank k sels -> exists f x, xdepth f frs sels = Some x).
+  assert (H : forall k sels, spreads_below frs rank k sels -> exists f x, md_xdepth f frs sels = Some x).
   { induction k as [k IHk] using lt_wf_ind.
-    set (P := fun s => spreads_below frs rank k [s] -> exists f a, xd_one (xdepth f frs) frs s = Some a).
-    set (Q := fun l => spreads_below frs rank k l -> exists f x, xdepth f frs l = Some x).
+    set (P := fun s => spreads_below frs rank k [s] -> exists f a, md_xd_one (md_xdepth f frs) frs s = Some a).
+    set (Q := fun l => spreads_below frs rank k l -> exists f x, md_xdepth f frs l = Some x).
     apply (sels_ind2 P Q); unfold P, Q; clear P Q.
     - (* field *)
       intros n sub IH Hb.
       destruct IH as (f & y & Hf).
       { intros m body Hs. apply (Hb m body). now apply SI_field. }
-      exists f. cbn [xd_one]. rewrite Hf. eauto.
+      exists f. cbn [md_xd_one]. rewrite Hf. eauto.
     - (* inline *)
       intros sub IH Hb.
       destruct IH as (f & y & Hf).
       { intros m body Hs. apply (Hb m body). now apply SI_inline. }
-      exists f. cbn [xd_one]. eauto.
+      exists f. cbn [md_xd_one]. eauto.
     - (* spread *)
-      intros n Hb. cbn [xd_one]. destruct (md_assoc n frs) as [body|] eqn:En.
+      intros n Hb. cbn [md_xd_one]. destruct (md_assoc n frs) as [body|] eqn:En.
       + assert (Hn : (rank n < k)%nat) by (apply (Hb n body); [apply SI_here|exact En]).
         apply (IHk (rank n) Hn body).
         intros m body' Hs Hm. exact (Hrank n body En m body' Hs Hm).
@@ -422,9 +422,9 @@ Proof.
       destruct IHr as (f2 & b & Hb2).
       { intros m body Hs. apply (Hb m body). now apply SI_tl. }
       destruct f2 as [|f2]; [discriminate|].
-      change (xd_list (xdepth f2 frs) frs r = Some b) in Hb2.
+      change (md_xd_list (md_xdepth f2 frs) frs r = Some b) in Hb2.
       exists (S (max f1 f2)), (N.max a b).
-      change (omax (xd_one (xdepth (max f1 f2) frs) frs s) (xd_list (xdepth (max f1 f2) frs) frs r)
+      change (md_omax (md_xd_one (md_xdepth (max f1 f2) frs) frs s) (md_xd_list (md_xdepth (max f1 f2) frs) frs r)
               = Some (N.max a b)).
       rewrite (xd_one_fuel_mono frs f1 (max f1 f2) s a (Nat.le_max_l _ _) Ha).
       rewrite (xd_list_mono frs _ _ r b (xdepth_mono frs f2 (max f1 f2) (Nat.le_max_r _ _)) Hb2).
@@ -443,71 +443,71 @@ Qed.
 (* ---------------------------------------------------------------- the expansion *)
 
 Lemma xp_one_mono frs r1 r2 s x :
-  rec_le r1 r2 -> xp_one r1 frs s = Some x -> xp_one r2 frs s = Some x.
+  rec_le r1 r2 -> md_xp_one r1 frs s = Some x -> md_xp_one r2 frs s = Some x.
 Proof.
-  intros H. destruct s as [n sub|sub|n]; cbn [xp_one].
+  intros H. destruct s as [n sub|sub|n]; cbn [md_xp_one].
   - destruct (r1 sub) as [y|] eqn:E; [|discriminate]. now rewrite (H _ _ E).
   - apply H.
   - destruct (md_assoc n frs); [apply H|auto].
 Qed.
 
 Lemma xp_list_mono frs r1 r2 l : forall x,
-  rec_le r1 r2 -> xp_list r1 frs l = Some x -> xp_list r2 frs l = Some x.
+  rec_le r1 r2 -> md_xp_list r1 frs l = Some x -> md_xp_list r2 frs l = Some x.
 Proof.
-  induction l as [|s l IH]; intros x H; cbn [xp_list]; [auto|].
-  destruct (xp_one r1 frs s) as [a|] eqn:Ea; [|discriminate].
-  destruct (xp_list r1 frs l) as [b|] eqn:Eb; [|discriminate].
-  cbn [oapp]. intros [= <-].
+  induction l as [|s l IH]; intros x H; cbn [md_xp_list]; [auto|].
+  destruct (md_xp_one r1 frs s) as [a|] eqn:Ea; [|discriminate].
+  destruct (md_xp_list r1 frs l) as [b|] eqn:Eb; [|discriminate].
+  cbn [md_oapp]. intros [= <-].
   now rewrite (xp_one_mono _ _ _ _ _ H Ea), (IH _ H eq_refl).
 Qed.
 
-Lemma expand_S frs f : rec_le (expand f frs) (expand (S f) frs).
+Lemma expand_S frs f : rec_le (md_expand f frs) (md_expand (S f) frs).
 Proof.
   induction f as [|f IH]; intros l x; [discriminate|].
-  intros H. change (xp_list (expand (S f) frs) frs l = Some x).
-  change (xp_list (expand f frs) frs l = Some x) in H.
+  intros H. change (md_xp_list (md_expand (S f) frs) frs l = Some x).
+  change (md_xp_list (md_expand f frs) frs l = Some x) in H.
   eapply xp_list_mono; eauto.
 Qed.
 
-Lemma expand_mono frs f f' : (f <= f')%nat -> rec_le (expand f frs) (expand f' frs).
+Lemma expand_mono frs f f' : (f <= f')%nat -> rec_le (md_expand f frs) (md_expand f' frs).
 Proof.
   induction 1 as [|f' _ IH]; intros l x H; [exact H|].
   apply expand_S. now apply IH.
 Qed.
 
 Lemma xd_list_app rec frs a b :
-  xd_list rec frs (a ++ b) = omax (xd_list rec frs a) (xd_list rec frs b).
+  md_xd_list rec frs (a ++ b) = md_omax (md_xd_list rec frs a) (md_xd_list rec frs b).
 Proof.
-  induction a as [|s a IH]; cbn [app xd_list].
-  - destruct (xd_list rec frs b) as [y|]; cbn [omax]; [now rewrite N.max_0_l|reflexivity].
-  - rewrite IH. destruct (xd_one rec frs s), (xd_list rec frs a), (xd_list rec frs b); cbn [omax];
+  induction a as [|s a IH]; cbn [app md_xd_list].
+  - destruct (md_xd_list rec frs b) as [y|]; cbn [md_omax]; [now rewrite N.max_0_l|reflexivity].
+  - rewrite IH. destruct (md_xd_one rec frs s), (md_xd_list rec frs a), (md_xd_list rec frs b); cbn [md_omax];
       try reflexivity. now rewrite N.max_assoc.
 Qed.
 
 (* with the same fuel: the expansion exists and has, as a fragment-free tree, the same depth *)
 Lemma expand_depth frs f : forall l x,
-  xdepth f frs l = Some x -> exists e, expand f frs l = Some e /\ xdepth f [] e = Some x.
+  md_xdepth f frs l = Some x -> exists e, md_expand f frs l = Some e /\ md_xdepth f [] e = Some x.
 Proof.
   induction f as [|f IH]; intros l x; [discriminate|].
-  change (xd_list (xdepth f frs) frs l = Some x ->
-          exists e, xp_list (expand f frs) frs l = Some e /\ xd_list (xdepth f []) [] e = Some x).
-  revert x. induction l as [|s l IHl]; intros x; cbn [xd_list xp_list].
+  change (md_xd_list (md_xdepth f frs) frs l = Some x ->
+          exists e, md_xp_list (md_expand f frs) frs l = Some e /\ md_xd_list (md_xdepth f []) [] e = Some x).
+  revert x. induction l as [|s l IHl]; intros x; cbn [md_xd_list md_xp_list].
   - intros [= <-]. exists []. auto.
-  - destruct (xd_one (xdepth f frs) frs s) as [a|] eqn:Ea; [|discriminate].
-    destruct (xd_list (xdepth f frs) frs l) as [b|] eqn:Eb; [|discriminate].
-    cbn [omax]. intros [= <-]. destruct (IHl _ eq_refl) as (el & Hel & Hxl). rewrite Hel.
-    assert (Hs : exists es, xp_one (expand f frs) frs s = Some es /\ xd_list (xdepth f []) [] es = Some a).
-    { destruct s as [n sub|sub|n]; cbn [xd_one xp_one] in *.
-      - destruct (xdepth f frs sub) as [y|] eqn:Ey; [|discriminate]. injection Ea as <-.
+  - destruct (md_xd_one (md_xdepth f frs) frs s) as [a|] eqn:Ea; [|discriminate].
+    destruct (md_xd_list (md_xdepth f frs) frs l) as [b|] eqn:Eb; [|discriminate].
+    cbn [md_omax]. intros [= <-]. destruct (IHl _ eq_refl) as (el & Hel & Hxl). rewrite Hel.
+    assert (Hs : exists es, md_xp_one (md_expand f frs) frs s = Some es /\ md_xd_list (md_xdepth f []) [] es = Some a).
+    { destruct s as [n sub|sub|n]; cbn [md_xd_one md_xp_one] in *.
+      - destruct (md_xdepth f frs sub) as [y|] eqn:Ey; [|discriminate]. injection Ea as <-.
         destruct (IH _ _ Ey) as (e & He & Hx). rewrite He. eexists. split; [reflexivity|].
-        cbn [xd_list xd_one]. rewrite Hx. cbn [omax]. now rewrite N.max_0_r.
+        cbn [md_xd_list md_xd_one]. rewrite Hx. cbn [md_omax]. now rewrite N.max_0_r.
       - destruct (IH _ _ Ea) as (e & He & Hx). exists e. split; [exact He|].
         apply (xdepth_S [] f) in Hx. exact Hx.
       - destruct (md_assoc n frs) as [body|].
         + destruct (IH _ _ Ea) as (e & He & Hx). exists e. split; [exact He|].
           apply (xdepth_S [] f) in Hx. exact Hx.
         + injection Ea as <-. exists []. auto. }
-    destruct Hs as (es & Hes & Hxs). rewrite Hes. cbn [oapp]. eexists. split; [reflexivity|].
+    destruct Hs as (es & Hes & Hxs). rewrite Hes. cbn [md_oapp]. eexists. split; [reflexivity|].
     rewrite xd_list_app, Hxs, Hxl. reflexivity.
 Qed.
 
@@ -526,8 +526,8 @@ Proof.
   intros [f Hf]. destruct (expand_depth frs _ _ _ Hf) as (e & He & _). exists e. now exists f.
 Qed.
 
-(* two operations (each with its own fragment definitions) that expand to the same field tree
-   get the same verdict *)
+(* two operations (each with its own fragment definitions) that md_expand to the same field tree
+   get the same md_verdict *)
 Theorem fragment_independent frs1 op1 frs2 op2 e :
   acyclic frs1 -> acyclic frs2 ->
   Expansion frs1 op1 e -> Expansion frs2 op2 e ->
@@ -540,7 +540,7 @@ Proof.
   destruct (check_iff frs1 op1 x2 X1) as [_ H1]. destruct (check_iff frs2 op2 x2 X2) as [_ H2].
   destruct (H1 _ C1) as [He1 Ho1]. destruct (H2 _ C2) as [He2 Ho2].
   destruct C1 as [f1 [_ N1]]. destruct C2 as [f2 [_ N2]].
-  destruct (N.lt_ge_cases x2 MAX_LISTS_DEPTH) as [Hlt|Hge].
+  destruct (N.lt_ge_cases x2 md_MAX_LISTS_DEPTH) as [Hlt|Hge].
   - rewrite (proj2 Ho1 Hlt). symmetry. exact (proj2 Ho2 Hlt).
   - rewrite (proj2 He1 Hge). symmetry. exact (proj2 He2 Hge).
 Qed.
@@ -549,7 +549,7 @@ Theorem check_iff_acyclic frs op : acyclic frs ->
   exists x, ExpandedDepth frs op x /\
     (exists v, Checks frs op v) /\
     (forall v, Checks frs op v ->
-       (v = VErr <-> MAX_LISTS_DEPTH <= x) /\ (v = VOk <-> x < MAX_LISTS_DEPTH)).
+       (v = MdVErr <-> md_MAX_LISTS_DEPTH <= x) /\ (v = MdVOk <-> x < md_MAX_LISTS_DEPTH)).
 Proof.
   intros A. destruct (xdepth_total frs A op) as [x Hx]. exists x. split; [exact Hx|].
   exact (check_iff frs op x Hx).
@@ -560,4 +560,46 @@ Theorem depth_of_expansion frs op x : ExpandedDepth frs op x ->
 Proof.
   intros Hx. split; [eapply expansion_total; eauto|].
   intros e He. eapply expansion_depth; eauto.
+Qed.
+
+(* ---------------------------------------------------------------- the specification, declaratively *)
+
+Lemma xdepth_path frs f : forall l x, md_xdepth f frs l = Some x -> NestPath frs l x.
+Proof.
+  induction f as [|f IH]; intros l x; [discriminate|].
+  change (md_xd_list (md_xdepth f frs) frs l = Some x -> NestPath frs l x).
+  revert x. induction l as [|s l IHl]; intros x; cbn [md_xd_list].
+  - intros [= <-]. constructor.
+  - destruct (md_xd_one (md_xdepth f frs) frs s) as [a|] eqn:Ea; [|discriminate].
+    destruct (md_xd_list (md_xdepth f frs) frs l) as [b|] eqn:Eb; [|discriminate].
+    cbn [md_omax]. intros [= <-].
+    destruct (N.le_ge_cases a b) as [Hab|Hab].
+    + rewrite N.max_r by exact Hab. apply NP_skip. now apply IHl.
+    + rewrite N.max_l by exact Hab.
+      destruct s as [n sub|sub|n]; cbn [md_xd_one] in Ea.
+      * destruct (md_xdepth f frs sub) as [y|] eqn:Ey; [|discriminate]. injection Ea as <-.
+        apply NP_field. now apply IH.
+      * apply NP_inline. now apply IH.
+      * destruct (md_assoc n frs) as [body|] eqn:En.
+        -- eapply NP_spread; eauto.
+        -- injection Ea as <-. constructor.
+Qed.
+
+Lemma path_le frs l k : NestPath frs l k -> forall x, ExpandedDepth frs l x -> k <= x.
+Proof.
+  induction 1 as [l|n sub r k _ IH|sub r k _ IH|n body r k En _ IH|s r k _ IH]; intros x Hx.
+  - lia.
+  - apply XD_field in Hx as (y & b & Hy & _ & ->). specialize (IH _ Hy).
+    destruct (md_is_list_field n); lia.
+  - apply XD_inline in Hx as (y & b & Hy & _ & ->). specialize (IH _ Hy). lia.
+  - apply (XD_spread _ _ _ _ _ En) in Hx as (y & b & Hy & _ & ->). specialize (IH _ Hy). lia.
+  - apply XD_cons in Hx as (f & a & b & _ & Hb & ->). specialize (IH _ Hb). lia.
+Qed.
+
+Theorem xdepth_is_max_path frs l x :
+  ExpandedDepth frs l x -> NestPath frs l x /\ forall k, NestPath frs l k -> k <= x.
+Proof.
+  intros Hx. split.
+  - destruct Hx as [f Hf]. eapply xdepth_path; eauto.
+  - intros k Hk. eapply path_le; eauto.
 Qed.
